@@ -51,6 +51,40 @@ func ReadPostings(d segment.TermDictionary, term []byte, except *roaring.Bitmap)
 	return hits, pl.Count(), nil
 }
 
+// Recycled holds the postings list and iterator a reader hands back as prealloc arguments.
+type Recycled struct {
+	PL segment.PostingsList
+	It segment.PostingsIterator
+}
+
+// ReadPostingsReuse is ReadPostings with the caller's recycled objects passed as prealloc (and
+// updated with what the calls returned, whatever that is - including the results of a miss).
+func ReadPostingsReuse(d segment.TermDictionary, term []byte, except *roaring.Bitmap, rc *Recycled) ([]Hit, uint64, error) {
+	pl, err := d.PostingsList(term, except, rc.PL)
+	if err != nil {
+		return nil, 0, err
+	}
+	rc.PL = pl
+	pi := pl.Iterator(true, true, true, rc.It)
+	rc.It = pi
+	var hits []Hit
+	for {
+		p, err := pi.Next()
+		if err != nil {
+			return nil, 0, err
+		}
+		if p == nil {
+			break
+		}
+		h := Hit{Doc: p.Number(), Freq: p.Frequency(), Norm: p.(*zap.Posting).NormUint64()}
+		for _, l := range p.Locations() {
+			h.Locs = append(h.Locs, Loc{l.Field(), l.Pos(), l.Start(), l.End(), cpU64(l.ArrayPositions())})
+		}
+		hits = append(hits, h)
+	}
+	return hits, pl.Count(), nil
+}
+
 // CheckDictCounts makes Dump also compare DictEntry.Count with the postings count (C08's concern).
 var CheckDictCounts = false
 
